@@ -12,6 +12,7 @@ import (
 	"time"
 
 	"github.com/Comcast/rulio/core"
+	"github.com/Comcast/rulio/sys"
 
 	"verif/harness/gen"
 	"verif/harness/refmatch"
@@ -28,6 +29,10 @@ type world struct {
 	o     *vlib.Outcome
 	// hooks lets a property install cron hooks on every state it builds.
 	hooks func(core.State)
+	// engine, if set, supplies the locations (sys.System.GetLocation): the
+	// System is then the LocationProvider that resolves parents, with its
+	// location cache and the cron hooks it installs.
+	engine *sys.System
 	// eventCtx, if set, is the context checkEvent passes to ProcessEvent
 	// (actions that use Env.AddFact etc. need a context with a location).
 	eventCtx *core.Context
@@ -92,6 +97,12 @@ func (w *world) open(name string) (*core.Location, error) {
 // build makes a fresh location object over the shared storage without
 // installing it.
 func (w *world) build(name string) (*core.Location, error) {
+	if w.engine != nil {
+		ctx := newCtx()
+		loc, err := w.engine.GetLocation(ctx, name)
+		w.engine.CachedLocations.Release(ctx, w.engine, name)
+		return loc, err
+	}
 	st, err := w.newState(name)
 	if err != nil {
 		return nil, err
